@@ -653,7 +653,13 @@ pub mod opcount {
     }
 }
 
+pub mod foreign {
+    use super::*;
+    include!(concat!(env!("EJMAHLER_RUSTFFT_VERIF_DIR"), "/replay/incrate_foreign.rs"));
+}
+
 pub fn search(which: &str) -> Option<String> {
+    if which.starts_with("foreign:") { return foreign::search(which); }
     if simd::known(which) { return simd::search(which); }
     if let Some(rest) = which.strip_prefix("compose:") {
         let v: Vec<usize> = rest.split(',').filter_map(|x| x.parse().ok()).collect();
@@ -736,7 +742,7 @@ pub fn search(which: &str) -> Option<String> {
     }
 }
 pub fn known(which: &str) -> bool {
-    simd::known(which) || which.starts_with("opcount:") || which.starts_with("compose:") || which.starts_with("dft_scalar:") || which.starts_with("partition:") || which.starts_with("plan_scalar:") || which.starts_with("plan_history:") || which.starts_with("shapes:") || which.starts_with("chunks:") || which == "helpers_small" || which == "sqrt_limit" || which.starts_with("primroot:") || which.starts_with("scalar_pairs:")
+    simd::known(which) || which.starts_with("opcount:") || which.starts_with("foreign:") || which.starts_with("compose:") || which.starts_with("dft_scalar:") || which.starts_with("partition:") || which.starts_with("plan_scalar:") || which.starts_with("plan_history:") || which.starts_with("shapes:") || which.starts_with("chunks:") || which == "helpers_small" || which == "sqrt_limit" || which.starts_with("primroot:") || which.starts_with("scalar_pairs:")
         || matches!(which, "MixedRadix" | "MixedRadixSmall" | "GoodThomasAlgorithm" | "GoodThomasAlgorithmSmall" | "Radix4" | "Radix3" | "RadersAlgorithm" | "BluesteinsAlgorithm")
 }
 
